@@ -117,9 +117,17 @@ def gen_case(rng, k):
         m["kind"] = "single-late-schedule"
     elif kind in (13, 3, 8):
         # 2-4 assets, mid-year from-date: hidden lots / years whose detail rows are all hidden (findings F2, F3)
-        m = l5.gen_multi(rng, country, n_assets=rng.range(2, 4), window=False)
+        m = l5.gen_multi(rng, country, n_assets=rng.range(2, 4), window=False, mixed_pct=35)
         days = sorted({hist.local_day(r["ts"]) for c in m["assets"] for r in all_rows(c)})
         m["from"] = max(0, rng.choice(days) + rng.choice([0, 1, 1, 30, 90]))
+        # reversal points (a row dated later than the row that follows it in time, mixed UTC offsets): the from-date on the
+        # earlier row's day keeps it and must hide the later one
+        rev = []
+        for c in m["assets"]:
+            rows = sorted(all_rows(c), key=lambda r: r["ts"][0])
+            rev += [hist.local_day(x["ts"]) for x, y in zip(rows, rows[1:]) if hist.local_day(y["ts"]) < hist.local_day(x["ts"])]
+        if rev and rng.chance(60):
+            m["from"] = rng.choice(rev)
         if rng.chance(30):
             m["to"] = m["from"] + rng.choice([0, 10, 200, 400])
         m["kind"] = "multi-from"
